@@ -112,9 +112,12 @@ class World:
         self.tainted = set()
         self.touched = []    # log of (kind, scope) for the non-triviality rule
         # ONE scenario dictionary object is handed to both managers (a caller re-using its definition): they must not end up sharing it
-        shared_scen = {"s0": {}, "s1": {"constants": {"c1": 3.0}}, "s2": {"points": {"p2": [[0.0, 1.0], [20.0, 2.0]]}}}
+        # ... and inside one registration two scenario names (s1, s3) are given the SAME settings object
+        one_shared = {"constants": {"c1": 3.0}}
+        shared_scen = {"s0": {}, "s1": one_shared, "s2": {"points": {"p2": [[0.0, 1.0], [20.0, 2.0]]}}, "s3": one_shared}
         for mgr, bc in (("smA", {}), ("smB", {"c3": 0.5})):
-            scen = {"s0": {}, "s1": {"constants": {"c1": 3.0}}, "s2": {"points": {"p2": [[0.0, 1.0], [20.0, 2.0]]}}}
+            one = {"constants": {"c1": 3.0}}
+            scen = {"s0": {}, "s1": one, "s2": {"points": {"p2": [[0.0, 1.0], [20.0, 2.0]]}}, "s3": one}
             spec = {"model": self.base, "scenarios": shared_scen if vseed % 2 == 0 else copy.deepcopy(scen)}
             if bc:
                 spec["base_constants"] = dict(bc)
